@@ -509,11 +509,11 @@ func (lb *LoadBalancer) RemoveBackend(name string) {
 	lb.mutex.Lock()
 	defer lb.mutex.Unlock()
 
-	// Find the backend by name
+	// Remove every backend registered under this name: AddBackend does not refuse a
+	// name that is already in use, so there may be more than one
 	for _, backend := range lb.strategy.GetBackends() {
 		if backend.Name == name {
 			lb.strategy.RemoveBackend(backend)
-			break
 		}
 	}
 }
